@@ -48,7 +48,7 @@ def interp_tasks(tier):
         return []
     if tier == 'quick':
         vers = [vers[0], vers[-1]] if len(vers) > 1 else vers
-    n = 8 if tier == 'quick' else 16
+    n = 16
     return [('interp', v, exe, 'interp' if tier == 'quick' else 'quick', i, n) for v, exe in vers for i in range(n)]
 
 
